@@ -151,7 +151,7 @@ var propRules = map[string]*PropSpec{
 		Technique:  techErr + "; taint of decoded sizes",
 	},
 	"C11": {
-		Rules:       []string{"F9", "F2", "A1.api32", "A1.slices", "A2.32", "A3.32", "A6.kernel", "U1", "F8.scratch", "A2.64", "A3.64", "F2.repair", "U3", "PT2"},
+		Rules:       []string{"F9", "F2", "A1.api32", "A1.slices", "A2.32", "A3.32", "A6.kernel", "U1", "F8.scratch", "A2.64", "A3.64", "F2.repair", "U3", "PT2", "P6"},
 		Explanation: explBase + " C11: singleton behaviour of the aggregate siblings, lazy->repair discipline, inputs and the caller's slice unchanged, scratch containers never end up in the result.",
 		Decided: []string{
 			"roaring64 aggregates store only owned or properly shared buckets",
@@ -160,9 +160,10 @@ var propRules = map[string]*PropSpec{
 		Technique:  techMix,
 	},
 	"C12": {
-		Rules:       []string{"P1", "P3", "P4", "PT", "A1.api32", "A2.32", "A3.32", "G1", "U3", "PT2"},
+		Rules:       []string{"P1", "P3", "P4", "PT", "A1.api32", "A2.32", "A3.32", "G1", "U3", "PT2", "P6"},
 		Explanation: explBase + " C12: protocol skeleton only: WaitGroup pairing, single close by the creator, range-workers released on every path, pool typestate, workers never change input contents.",
 		Decided: []string{
+			"no producer/consumer cycle through the coordinator: work is fed from a goroutine of its own, or the workers' per-item results are drained by another goroutine",
 			"memory handed to a sync.Pool is not touched again until a new value is obtained, and nothing derived from a pooled object is returned",
 			"no library function writes package-level state (shared by all goroutines)",
 			"every goroutine preceded by wg.Add(1) runs a function whose every path calls wg.Done (deferred)", "every channel is closed at most once, by the function that created it, and every for-range worker's channel is closed on every path to the spawner's return", "pooled adapters are Reset after Get, Put exactly once on every path and not retained", "parallel aggregates never change input contents: every payload write in the workers' call trees goes through an owned container (A1/A2/A3)"},
@@ -206,7 +207,7 @@ var propRules = map[string]*PropSpec{
 		Technique:  techMix,
 	},
 	"C17": {
-		Rules:       []string{"A2.64", "A3.64", "F3.64", "F5", "F9", "A1.api64", "A5", "F12"},
+		Rules:       []string{"A2.64", "A3.64", "F3.64", "F5", "F9", "A1.api64", "A5", "F12", "P6"},
 		Explanation: explBase + " C17: the 64-bit bitmap's bucket table obeys the same ownership discipline (bucket = container), drops emptied buckets, inserts at the right index and its aggregates return fresh bitmaps.",
 		Decided:     []string{"every bucket write goes through an owned bucket (gate / fresh)", "every bucket store is owned / moved with its flag / cloned", "every may-empty bucket operation is followed by an emptiness test", "insertion index searched in the destination table (static Flip)", "FastOr/FastAnd/ParOr of one bitmap return a fresh bitmap", "read-only API never changes its arguments"},
 		NotDecided:  []string{"per-bucket range splitting", "Rank/Select accumulation", "iterator arithmetic", "absence of panics in general"},
